@@ -1,9 +1,9 @@
 open Wakemodel
 (* Line-protocol driver of the extracted wake-up model (coq/wake/WakeModel.v), see harness/cmd/wake.
    new <mode 0=LT 1=ET 2=ETOS> <room>   fresh connection, send buffer with <room> free bytes
-   w <n> | sf <n> | reg | dial | dialnow | peer <k> | deliver <rd 0|1> <spur 0|1> | hout | done | rearm | close
+   w <n> | sf <n> | reg | dial | dialnow | peer <k> | deliver <rd 0|1> <spur 0|1> | hout | done | rdisp <co 0|1> | rearm | close
    every line is answered by the state after the action:
-   q wadded closed room reg mout armed eout nospace pw owed sent dial dout
+   q wadded closed room reg mout armed eout nospace pw owed sent dial prd dout
    (dout = deliverable_out with spur = false) *)
 let () =
   let md = ref LT in
@@ -28,6 +28,7 @@ let () =
        | ["deliver"; rd; sp] -> act (Deliver (b rd, b sp))
        | ["hout"] -> act HandleOut
        | ["done"] -> act ConnDone
+       | ["rdisp"; co] -> act (ReadDispatch (b co))
        | ["rearm"] -> act Rearm
        | ["close"] -> act Close
        | _ -> ());
